@@ -1,7 +1,9 @@
 (* The memoised evaluation of supp/scope.py in state-passing style (definitions only; proofs in
    Proofs/MemoProofs.v).
 
-   mstate.perm / layers   SourceScope._loop_memo   scope.py:209   [permanent, layer of the outer
+   (policy of commit 0211a17: a key is looked up in every layer, outside-in; a value is stored in
+   the layer of the innermost loop it depends on; a flow closing a loop answers with the loop.)
+   mstate.perm / layers   SourceScope._loop_memo   scope.py       [permanent, layer of the outer
                                                                    resolution, ..., innermost]
    mstate.dstack          SourceScope._loop_deps   scope.py:210   stack of dependency sets
    mstate.resolving       LoopFlow._resolving      scope.py:165   flags of the loops being resolved
@@ -74,21 +76,41 @@ Definition pop_deps (st : mstate) : deps * mstate :=
   | [] => ([], st)
   end.
 
-(* memo[-1 if deps else 0][key] = value, deps *)
-Definition store_entry (as_is : bool) (k : mkey) (v : env) (d : deps) (st : mstate) : mstate :=
-  match d, layers st, as_is with
-  | _ :: _, inner :: r, false => mkState (perm st) (store k (v, d) inner :: r) (dstack st) (resolving st)
-  | _, _, _ => mkState (store k (v, d) (perm st)) (layers st) (dstack st) (resolving st)
+(* layer = max([stack.index(l) for l in deps] or [0]); memo[layer][key] = value, deps
+   (a dependency that is not on the stack: ValueError, nothing is stored).
+   [rs]/[ls] = the resolving loops and their layers, innermost first: the innermost loop of deps is
+   the first element of rs that occurs in deps. *)
+Fixpoint store_in (k : mkey) (v : entry) (d : deps) (rs : list nat) (ls : list layer) : option (list layer) :=
+  match rs, ls with
+  | r :: rs', l :: ls' =>
+      if existsb (Nat.eqb r) d then Some (store k v l :: ls')
+      else match store_in k v d rs' ls' with Some ls'' => Some (l :: ls'') | None => None end
+  | _, _ => None
   end.
 
-(* for m in (memo[0], memo[-1]) *)
+Definition store_entry (as_is : bool) (k : mkey) (v : env) (d : deps) (st : mstate) : mstate :=
+  match d, as_is with
+  | _ :: _, false =>
+      if forallb (fun l => existsb (Nat.eqb l) (resolving st)) d then
+        match store_in k (v, d) d (resolving st) (layers st) with
+        | Some ls => mkState (perm st) ls (dstack st) (resolving st)
+        | None => st
+        end
+      else st
+  | _, _ => mkState (store k (v, d) (perm st)) (layers st) (dstack st) (resolving st)
+  end.
+
+(* for m in memo: permanent layer first, then the layers of the resolutions in progress outside-in *)
+Fixpoint lookup_layers (k : mkey) (ls : list layer) : option entry :=
+  match ls with
+  | [] => None
+  | l :: r => match lookup k l with Some e => Some e | None => lookup_layers k r end
+  end.
+
 Definition memo_lookup (k : mkey) (st : mstate) : option entry :=
   match lookup k (perm st) with
   | Some e => Some e
-  | None => match layers st with
-            | inner :: _ => lookup k inner
-            | [] => None
-            end
+  | None => lookup_layers k (rev (layers st))
   end.
 
 (* scope.py:135-155 *)
@@ -199,11 +221,23 @@ Section MemoEval.
         match nth_error (flows g) f with
         | None => None
         | Some fl =>
-            memo_call as_is (KNames f)
-              (fun st1 => match memo_call as_is (KPar f) (pbody (names_m k) fl) st1 with
-                          | Some (pe, st2) => Some (own_env (own fl) pe, st2)
-                          | None => None
-                          end) st
+            match (if as_is then None else
+                   match closes_of g f with
+                   | Some l => if existsb (Nat.eqb l) (resolving st) then None else Some l
+                   | None => None
+                   end) with
+            | Some l =>                                   (* closes.names *)
+                match loop_m (names_m k) l st with
+                | Some (Some v, st') => Some (v, st')
+                | _ => None
+                end
+            | None =>
+                memo_call as_is (KNames f)
+                  (fun st1 => match memo_call as_is (KPar f) (pbody (names_m k) fl) st1 with
+                              | Some (pe, st2) => Some (own_env (own fl) pe, st2)
+                              | None => None
+                              end) st
+            end
         end
     end.
 
@@ -262,4 +296,5 @@ Fixpoint answers (as_is : bool) (g : graph) (km : keymap) (fuel : nat) (st : mst
 
 Definition is_direct (p : parent) : bool := match p with Direct _ => true | Loop _ => false end.
 
-Definition no_loopsb (g : graph) : bool := forallb (fun fl => forallb is_direct (parents fl)) (flows g).
+Definition no_loopsb (g : graph) : bool :=
+  match loops g with [] => forallb (fun fl => forallb is_direct (parents fl)) (flows g) | _ => false end.
